@@ -127,6 +127,8 @@ func main() {
 		os.Exit(cmdSweep(os.Args[2:]))
 	case "sqlinv":
 		os.Exit(cmdSQLInv(os.Args[2:]))
+	case "paramnames":
+		os.Exit(cmdParamNames(os.Args[2:]))
 	case "appendsites":
 		os.Exit(cmdAppendSites(os.Args[2:]))
 	case "mutsites":
@@ -1083,6 +1085,38 @@ func cmdAppendSites(args []string) int {
 				}
 				fmt.Printf("%-7s %s %s: %s\n", v, P.pos(call.Pos()), k, why)
 			}
+		}
+	}
+	return 0
+}
+
+// cmdParamNames prints, for every func contract, the file and line of its header and the current names of the
+// function's parameters (receiver first), so that the headers can be given positional parameter lists.
+func cmdParamNames(args []string) int {
+	fs := flag.NewFlagSet("paramnames", flag.ExitOnError)
+	repo := fs.String("repo", "/repo", "repository")
+	verif := fs.String("verif", "/verif", "verif dir")
+	fs.Parse(args)
+	pkgs, err := contractPackages(*repo, "")
+	if err != nil || len(pkgs) == 0 {
+		return 2
+	}
+	P, err := LoadProgram(*repo, pkgs, filepath.Join(*verif, "contracts"))
+	if err != nil {
+		fmt.Fprintln(os.Stderr, err)
+		return 2
+	}
+	for _, c := range P.CS.Funcs {
+		for _, bc := range append([]*FuncContract{c}, c.Behaviors...) {
+			fn := P.FindFunc(c.PkgPath, c.Key)
+			if fn == nil || bc.SchemaOf != "" {
+				continue
+			}
+			var names []string
+			for _, p := range fn.Params {
+				names = append(names, p.Name())
+			}
+			fmt.Printf("%s\t%d\t%s\n", bc.File, bc.Line, strings.Join(names, ", "))
 		}
 	}
 	return 0
